@@ -56,6 +56,21 @@ CurveTypeCases ==
   [ct1 \in 1..256 |-> Mk("curvetype", "parse_ec_parameters", "", 0, <<ct1 - 1, 0, 0, 0, 0, 0, 0, 0, 0, 0>>, <<>>, 0)]
   \o [ct1 \in 1..256 |-> Mk("curvetype", "parse_ecdh_params", "", 0, <<ct1 - 1, 0, 0, 0, 0, 0, 0, 0, 0, 0, 0>>, <<>>, 0)]
 
+(* every curve type over bodies that are well formed under each RFC 4492 layout (explicit prime, explicit char2 with a *)
+(* trinomial / pentanomial basis, named curve): whatever the body looks like, only types 1 and 3 are accepted          *)
+O(x) == <<Len(x)>> \o x
+FiveOpaque == O(<<1>>) \o O(<<2, 3>>) \o O(<<4, 5, 6>>) \o O(<<7>>) \o O(<<1>>)      \* a, b, base, order, cofactor
+Layouts == << O(<<23, 1>>) \o FiveOpaque,                                               \* explicit_prime: p, a, b, base, order, cofactor
+              <<0, 163, 1>> \o O(<<7>>) \o FiveOpaque,                                   \* explicit_char2: m, basis = trinomial, k
+              <<0, 163, 2>> \o O(<<3>>) \o O(<<6>>) \o O(<<7>>) \o FiveOpaque,            \* explicit_char2: m, basis = pentanomial, k1 k2 k3
+              <<0, 163, 1, 0>> \o FiveOpaque, <<0, 163, 2, 1, 3, 1, 6, 1, 7>> \o FiveOpaque,
+              <<0, 23>> >>                                                                 \* named_curve
+CurveLayoutCases ==
+  Concat([ct1 \in 1..256 |->
+    Concat([l \in 1..Len(Layouts) |->
+      << Mk("curvelayout", "parse_ec_parameters", "", 0, <<ct1 - 1>> \o Layouts[l] \o <<9, 9, 9>>, <<>>, 0),
+         Mk("curvelayout", "parse_ecdh_params", "", 0, <<ct1 - 1>> \o Layouts[l] \o <<2, 4, 4, 9>>, <<>>, 0) >>])])
+
 (* content + signature under both values of the negotiation flag *)
 SubVals(sub) == IF sub = "dh" THEN SubSeq(DhVals, 1, 6) \o SubSeq(DhVals, 68, Len(DhVals)) ELSE IF sub = "ecdh" THEN SubSeq(EcdhVals, 1, 9) ELSE EcVals
 SubEnc(sub, v) == IF sub = "dh" THEN EncDhParams(v) ELSE IF sub = "ecdh" THEN EncEcdhParams(v) ELSE EncEcParameters(v)
@@ -89,13 +104,28 @@ AmbCases ==
          Mk("enc", "parse_digitally_signed", "", 0, sig, newv, 0),
          Mk("enc", "parse_digitally_signed_old", "", 0, sig, oldv, 0) >>])])
 
-ASSUME TLCSet(1, EncCases(DhSignVals, EncDhParams, "parse_dh_params") \o AmbCases \o EncCases(DhVals, EncDhParams, "parse_dh_params") \o EncCases(PointVals, EncEcPoint, "ECPoint::parse")
+(* structures followed by 2^16 - 1 .. 2^17 - 1 more bytes *)
+LongTailCases ==
+  Concat([t \in 1..Len(LongTails) |->
+    LET tail == [h \in 1..LongTails[t] |-> 171] IN
+    << Mk("enc", "parse_dh_params", "", 0, EncDhParams(DhSignVals[1]) \o tail, DhSignVals[1], LongTails[t]),
+       Mk("enc", "parse_ecdh_params", "", 0, EncEcdhParams(EcdhVals[2]) \o tail, EcdhVals[2], LongTails[t]),
+       Mk("enc", "parse_digitally_signed", "", 0, EncSigned(SignedNew[5]) \o tail, SignedNew[5], LongTails[t]),
+       Mk("cas", "parse_content_and_signature", "ecdh", 1, EncEcdhParams(EcdhVals[2]) \o EncSigned(SignedNew[5]) \o tail,
+          [content |-> EcdhVals[2], sig |-> SignedNew[5]], LongTails[t]) >>])
+(* all 65536 (hash, signature) pairs are opaque numbers to parse_content_and_signature: a stride over the pair, both sub-parsers *)
+PairSweep ==
+  Concat([q \in 1..512 |->
+    LET x == IF q <= 256 THEN 2048 + (q - 1) ELSE ((q * 251) % 65536)  h == x \div 256  sg == x % 256
+        sv == [alg |-> Some([hash |-> h, sign |-> sg]), data |-> <<q % 256>>]  v == EcdhVals[2] IN
+    << Mk("cas", "parse_content_and_signature", "ecdh", 1, EncEcdhParams(v) \o EncSigned(sv), [content |-> v, sig |-> sv], 0) >>])
+ASSUME TLCSet(1, LongTailCases \o PairSweep \o EncCases(DhSignVals, EncDhParams, "parse_dh_params") \o AmbCases \o EncCases(DhVals, EncDhParams, "parse_dh_params") \o EncCases(PointVals, EncEcPoint, "ECPoint::parse")
                  \o EncCases(EcVals, EncEcParameters, "parse_ec_parameters") \o EncCases(EcdhVals, EncEcdhParams, "parse_ecdh_params")
                  \o EncCases(SignedNew, EncSigned, "parse_digitally_signed") \o EncCases(SignedOld, EncSigned, "parse_digitally_signed_old")
                  \o CutCases(DhVals, EncDhParams, "parse_dh_params") \o CutCases(EcVals, EncEcParameters, "parse_ec_parameters")
                  \o CutCases(EcdhVals, EncEcdhParams, "parse_ecdh_params") \o CutCases(SignedNew, EncSigned, "parse_digitally_signed")
                  \o CutCases(SignedOld, EncSigned, "parse_digitally_signed_old") \o CutCases(PointVals, EncEcPoint, "ECPoint::parse")
-                 \o CurveTypeCases \o CasCases)
+                 \o CurveTypeCases \o CurveLayoutCases \o CasCases)
 Cases == TLCGet(1)
 N == Len(Cases)
 ArgsOf(c) == [NoArgs EXCEPT !.sub = c.sub, !.ext = c.ext]
@@ -117,6 +147,9 @@ Truncated == Cases[i].kind = "cut" => res.k # "ok"
 CurveTypeRule ==
   LET c == Cases[i] IN
   c.kind = "curvetype" => (res.k = "ok" <=> c.bytes[1] \in {1, 3}) /\ (c.bytes[1] \notin {1, 3} => res.e = "Switch")
+CurveLayoutRule ==
+  LET c == Cases[i] IN
+  (c.kind = "curvelayout" /\ c.bytes[1] \notin {1, 3}) => (res.k \in {"err", "fail"} /\ res.e = "Switch")
 (* SignatureFormIffFlag: under the other flag the same bytes are read in the other form *)
 SignatureFormIffFlag ==
   LET c == Cases[i] IN
@@ -127,7 +160,7 @@ Pin ==
   LET c == Cases[i] IN
   IF c.kind \in {"enc", "cas"} THEN "full"
   ELSE IF c.kind = "cut" THEN "novalue"
-  ELSE IF c.kind = "curvetype" THEN (IF res.k = "ok" THEN "full" ELSE "novalue")
+  ELSE IF c.kind \in {"curvetype", "curvelayout"} THEN (IF res.k = "ok" THEN "full" ELSE IF c.bytes[1] \notin {1, 3} THEN "err_kind" ELSE "novalue")
   ELSE (IF res.k = "ok" THEN "full" ELSE "novalue")
 EmitCase ==
   LET c == Cases[i] IN
